@@ -139,10 +139,10 @@ def print_parse_probes(rep):
         ty, _, val, rest = mm.groups()
         v = int(val)
         if ty in ('Timestamp', 'TimestampTz'):
-            pm = _re.search(r'printed "[+-]?(\d+)-[^"]*?( BC)?[^"]*"', rest)
+            pm = _re.search(r'printed "[+-]?(\d+)-([^"]*)"', rest)
             if v % 1000000 != 0:
                 cls = 'sub-second-part'
-            elif pm and pm.group(2) and len(pm.group(1)) >= 5:
+            elif pm and ' BC' in pm.group(2) and len(pm.group(1)) >= 5:
                 cls = 'bc-year-of-five-digits'
             elif pm and len(pm.group(1)) >= 5:
                 cls = 'year-beyond-9999'
